@@ -74,6 +74,10 @@ def build(inp):
                               channel=int(v['channel']), voice=int(v['voice'])))
     if inp.get('order') != 'raw':
         items.sort(key=lambda x: x.start)
+    if inp.get('via') == 'matrix':
+        # the same timed notes through the matrix form (Item.array() rows -> Item.frommatrix), the entry point voice
+        # separation uses (seed C14-6 swapped channel and voice there)
+        items = Item.frommatrix([tuple(it.array()) for it in items])
     lens = [F(x) for x in inp['lens']]
     clens = [F(x) for x in inp.get('chord_lens', inp['lens'])]
     chords = [mk_chord(tuple(ch), L) for ch, L in zip(inp['chords'], clens)]
@@ -518,6 +522,8 @@ def oracle(ctx):
     # 3. random
     for _ in range(ctx.n(1500, 20000)):
         todo.append(gen_import(rng))
+        if rng.random() < 0.2:
+            todo.append({**todo[-1], 'via': 'matrix'})
     for inp in todo:
         ft = features(inp)
         ctx.count('oracle', key=str(inp), bucket=['import'] + ft,
